@@ -284,6 +284,10 @@ pub fn run_lib(sc: &Scenario) -> Observation {
 
     // scrut is done: its directories go away, then the orphans run on
     let root_path = root.path().to_path_buf();
+    obs.fs_exit = vec![(
+        root_path.to_string_lossy().into_owned(),
+        scrut::verif_sim::world::list_tree(&root_path.to_string_lossy()),
+    )];
     let _ = std::fs::remove_dir_all(&work);
     let _ = std::fs::remove_dir_all(&tmp);
     verif_sim::drain();
